@@ -53,7 +53,16 @@ def make_objects(aa, mk, specs):
     objs = []
     for sp in specs:
         if sp["kind"] in ("mapper", "delaunay"):
-            osamp = aa.OverSamplerUniform(mask=mk, sub_size=int(sp["sub"]))
+            if sp.get("adaptive"):
+                # adaptive over-sampling: a different sub-size in different pixels (not sorted, not uniform)
+                ra = np.random.default_rng(int(sp["seed"]) + 17)
+                n_un = int(np.size(np.asarray(mk)) - np.sum(np.asarray(mk)))
+                sizes = ra.integers(1, 4, size=n_un)
+                if n_un >= 2 and len(set(sizes.tolist())) == 1:
+                    sizes[0] = sizes[0] % 3 + 1
+                osamp = aa.OverSamplerUniform(mask=mk, sub_size=aa.Array2D(values=sizes.astype(float), mask=mk))
+            else:
+                osamp = aa.OverSamplerUniform(mask=mk, sub_size=int(sp["sub"]))
             g = np.asarray(osamp.over_sampled_grid, dtype=float)
             r = np.random.default_rng(int(sp["seed"]))
             grid = aa.Grid2DIrregular(values=g + float(sp["distort"]) * r.normal(size=g.shape))
@@ -125,12 +134,12 @@ def object_specs(rng, order, n, signed_func):
     for k, c in enumerate(order):
         if c == "m":
             reg = rng.choice([1.0, 0.5, 2.0, 1.0, None]) if len(order) > 1 else rng.choice([1.0, 0.5, 2.0])
-            specs.append({"kind": "mapper", "shape": shapes[k], "sub": rng.choice([1, 2, 2, 3]), "seed": rng.randrange(10 ** 6),
+            specs.append({"kind": "mapper", "shape": shapes[k], "sub": rng.choice([1, 2, 2, 3]), "adaptive": rng.random() < 0.3, "seed": rng.randrange(10 ** 6),
                           "distort": rng.choice([0.0, 0.2, 0.5, 1.0]), "reg": reg})
         elif c == "d":
             reg = rng.choice([1.0, 0.5, 2.0, None]) if len(order) > 1 else rng.choice([1.0, 0.5, 2.0])
             pts = np.array([[rng.uniform(-2.5, 2.5), rng.uniform(-2.5, 2.5)] for _ in range(rng.randint(4, 7))])
-            specs.append({"kind": "delaunay", "points": pts, "sub": rng.choice([1, 2, 2, 3]), "seed": rng.randrange(10 ** 6),
+            specs.append({"kind": "delaunay", "points": pts, "sub": rng.choice([1, 2, 2, 3]), "adaptive": rng.random() < 0.3, "seed": rng.randrange(10 ** 6),
                           "distort": rng.choice([0.0, 0.2, 0.5]), "reg": reg})
         else:
             specs.append({"kind": "func", "matrix": random_matrix(rng, n, rng.randint(1, 2), "signed" if signed_func else "nonneg")})
